@@ -417,6 +417,9 @@ def _sweep_calls():
     reg("separates", lambda A, D, c: (u.separates, [set(c["S"]) - {c["i"] % len(A), c["j"] % len(A)}, {c["i"] % len(A)},
                                                      {c["j"] % len(A)} - {c["i"] % len(A)}, A], {}))
     reg("is_consistent_extension", lambda A, D, c: (u.is_consistent_extension, [D, A], {}))
+    reg("are_forward_neighbors", lambda A, D, c: (u.are_forward_neighbors, [A, D, c["i"] % len(A), c["j"] % len(A)], {}))
+    reg("are_backward_neighbors", lambda A, D, c: (u.are_backward_neighbors, [D, A, c["i"] % len(A), c["j"] % len(A)], {}))
+    reg("are_forward_neighbors_DD", lambda A, D, c: (u.are_forward_neighbors, [D, D.copy(), c["i"] % len(A), c["j"] % len(A)], {}))
     for k in (1, 2, 3, 4):
         reg("rule_%d" % k, lambda A, D, c, f=getattr(u, "rule_%d" % k): (f, [c["i"] % len(A), c["j"] % len(A), A], {}))
     reg("add_edges", lambda A, D, c: (u.add_edges, [D, 0 if len(D) < 2 else min(1, len(D) * (len(D) - 1) // 2 - int((D != 0).sum()))], {"random_state": c["seed"]}))
